@@ -297,7 +297,14 @@ def cbmc_cmd(job, gb, extra=()):
     cmd = ["cbmc", gb, "--no-standard-checks", "--drop-unused-functions"]
     for c in job.get("checks", ["ptr"]):
         cmd += CHECKS[c]
-    cmd += job.get("cbmc", []) + job.get("_unwindset", [])
+    flags = list(job.get("cbmc", [])) + list(job.get("_unwindset", []))
+    sets, rest, i = [], [], 0
+    while i < len(flags):            # merge every --unwindset into one option
+        if flags[i] == "--unwindset":
+            sets.append(flags[i + 1]); i += 2
+        else:
+            rest.append(flags[i]); i += 1
+    cmd += rest + (["--unwindset", ",".join(sets)] if sets else [])
     solver = job.get("solver", "minisat")
     if solver == "kissat":
         cmd += ["--external-sat-solver", "kissat"]
